@@ -1781,7 +1781,17 @@ def _reduction(name, a, axis, result_dt=None):
         n = core.term(SV.lift(a.size))
         val = SV(f(lam, n), "r")
         if name in ("amin", "amax") and _py_len(sh) == 1:
-            cur().counter.setdefault("@redfacts", []).append((name, val, e, sh[0]))
+            p_ = cur()
+            p_.counter.setdefault("@redfacts", []).append((name, val, e, sh[0]))
+            wk = ("minmaxwit", core.tid(val.t))
+            if wk not in p_.counter:
+                # the extremum of a non-empty array is attained: a witness index (ghost)
+                p_.counter[wk] = 1
+                w = core.fresh_int("np_%s_at" % name, register=False)
+                ew = e((w,))
+                if not (ew is NAN or _py_isinstance(ew, MaybeNaN)):
+                    nn = core.term(SV.lift(sh[0]))
+                    p_.add(z3.Implies(nn >= 1, z3.And(w.t >= 0, w.t < nn, val.t == core.term(SV.lift(_num(ew))))))
         return ndarray.from_elem(lambda idx: val, (), rdt)
     if axis < 0:
         axis += a.ndim
